@@ -128,6 +128,18 @@ def r04_1(ctx: Ctx) -> None:
     ctx.instance("R04.1", fi.where(av[0]) if av else fi.where(), f"available_rows = {unparse(av[0].value) if av else '?'}")
     if not ok:
         ctx.violation("R04.1", fi.short, "available_rows " + (unparse(av[0].value) if av else "?"), fi.where(), "available rows are not max(1, nrow - additional_rows_per_page)")
+    # the greedy loop is the only place where pages are assigned: no shortcut return besides the empty frame
+    rets = [r for r in walk_no_nested(fi.node) if isinstance(r, ast.Return)]
+    for r in rets:
+        guards = [unparse(a.test) for a in _anc(r, fi.node) if isinstance(a, ast.If)]
+        val = unparse(r.value) if r.value is not None else "None"
+        after_loop = r.lineno > lp.end_lineno
+        ok_r = (val == "meta_df" and guards == ["meta_df.height == 0"]) or (after_loop and not guards and val == "pl.DataFrame(rows)")
+        ctx.instance("R04.1", fi.where(r), f"_assign_pages return `{val}` under {guards or 'no guard'} ({'after' if after_loop else 'before'} the greedy loop)")
+        if not ok_r:
+            ctx.violation("R04.1", fi.short, f"shortcut return {val} if {guards}", fi.where(r),
+                          f"_assign_pages returns `{val}` under {guards} without running the greedy pass: page numbers assigned by a shortcut need not respect the row budget "
+                          "or prefix stability")
     inits = {unparse(a.targets[0]): unparse(a.value) for a in fi.node.body if isinstance(a, ast.Assign)}
     if inits.get("current_page") != "1" or inits.get("current_rows") != "0":
         ctx.violation("R04.1", fi.short, f"initial state {inits.get('current_page')},{inits.get('current_rows')}", fi.where(), "page numbering must start at page 1 with 0 rows")
